@@ -120,6 +120,14 @@ class XslGen:
                 out.append({"i": "attribute", "name": [{"lit": True, "s": cps(self.r.choice(["p", "q", "x"]))}],
                             "body": (self.body(scope, 0, allow_attr=False, text_only=True) if self.r.random() < 0.6 else [{"i": "value-of", "sel": self.expr(scope, "any", d=1)}])
                                     + ([{"i": "message"}] if self.r.random() < 0.1 else [])})
+        if text_only and self.r.random() < 0.3:
+            # a result tree fragment BUILT inside xsl:attribute / xsl:comment / xsl:processing-instruction may hold elements: only what the
+            # body finally creates there has to be text (7.1.3); the fragment's string-value is then written
+            frag = self.r.choice([[{"i": "lre", "name": cps("e"), "attrs": [], "body": [{"i": "text", "v": cps("F")}]}, {"i": "text", "v": cps("g")}],
+                                  [{"i": "copy-of", "sel": P(ch(T_ANY), abs_=True)}, {"i": "text", "v": cps("g")}],
+                                  [{"i": "element", "name": [{"lit": True, "s": cps("h")}], "body": [{"i": "value-of", "sel": lit("H")}]}]])
+            out.append({"i": "variable", "name": "tf", "hasSel": False, "sel": NONE, "body": frag})
+            out.append({"i": "value-of", "sel": var("tf")})
         n = self.r.choice([1, 1, 2, 2, 3]) if d > 0 else self.r.choice([0, 1, 1])
         if self.named and not out and not text_only and getattr(self, "free", 0) == 0 and self.r.random() < 0.12:
             # a call-template as the only child of its parent (Xalan runs such a callee "directly")
